@@ -2,4 +2,4 @@
 From Coq Require Import ExtrOcamlBasic.
 From CssV Require Import Base Tokenizer Selector.
 Extraction "selector_model.ml" select sel_run sel_prepass render sp_selector declared_b tty_str tty_of_str ityp_str
-  sel_normalize tok_normalize assigns0 page_assign pheld0 sl_select sep_free select_ser.
+  sel_normalize tok_normalize assigns0 page_assign pheld0 sl_select sep_free select_ser select_ser_tokens.
